@@ -34,8 +34,6 @@ AUDITED = {
         1, "buf.len() * 2: the buffer is held in memory, its length is far below usize::MAX / 2"),
     "read_to_buffer|call:BytesMut::resize": (
         1, "doubling of an in-memory buffer (allocation failure is out of scope)"),
-    "Connection::connect|call:BytesMut::zeroed": (1, "constant capacity 4096"),
-    "AsyncConnection::connect|call:BytesMut::with_capacity": (1, "constant capacity 4096"),
     "Connection::receive|call:BytesMut::split_off": (
         1, "split_off(total_received) with total_received <= recv_buf.len() (invariant of read_to_buffer)"),
     "Connection::receive|call:BytesMut::resize": (
@@ -68,6 +66,14 @@ def inventory_rule(rep, prog, cfg):
             continue
         if s.kind == "call:core::option::Option::unwrap" and panics.unwrap_guarded_by_test(s.body, s.bb):
             rep.ok("C09.inventory", inst, detail={"where": s.where, "discharged": "unwrap dominated by is_some edge"})
+            continue
+        cv = panics.constant_arithmetic(prog, s)
+        if cv is not None:
+            rep.ok("C09.inventory", inst, detail={"where": s.where, "discharged": "arithmetic on compile-time constants, result %d fits" % cv})
+            continue
+        cap = panics.constant_capacity(prog, s)
+        if cap is not None:
+            rep.ok("C09.inventory", inst, detail={"where": s.where, "discharged": "capacity is the compile-time constant %d" % cap})
             continue
         rest.append(s)
     am = panics.AuditMatcher(AUDITED, rest)
